@@ -42,7 +42,22 @@ def run_one(pid, tier, seed, replay=None):
     return run_check(pid, tier, seed, fn)
 
 
+def _resource_guard():
+    """An analysis that runs away (an interpreted loop the step budget does not see, a fixpoint that does not converge)
+    must end as ANALYSIS-ERROR, never eat the machine: address space is capped, so the blow-up surfaces as MemoryError
+    inside run_check's containment."""
+    try:
+        import resource
+        cap = int(os.environ.get("VERIF_MEM_CAP_MB", "6144")) * 1024 * 1024
+        soft, hard = resource.getrlimit(resource.RLIMIT_AS)
+        if hard == resource.RLIM_INFINITY or cap < hard:
+            resource.setrlimit(resource.RLIMIT_AS, (cap, hard))
+    except Exception:  # noqa: BLE001 - platform without rlimits: nothing to guard with
+        pass
+
+
 def main(argv=None):
+    _resource_guard()
     ap = argparse.ArgumentParser()
     ap.add_argument("pid")
     ap.add_argument("--tier", default=os.environ.get("VERIF_TIER", "quick"))
